@@ -491,7 +491,12 @@ class PoolMetricsStream(Stream):
 #   OP = {"op": "status", "working": [ids]} | {"op": "request", "what": "soc" | "capacity"}
 #      | {"op": "data", "id": b, "d": D} | {"op": "silence", "id": b} | {"op": "resume", "id": b}
 #      | {"op": "drift", "id": b, "field": "soc"|"cap"|"lo"|"hi", "rel": [n, d], "steps": N}
-#        (N messages 50 virtual ms apart, the field moving from v0 to v0 * (1 + k * rel), k = 1..N, with
+#      | {"op": "burst", "gap": [n, d], "ops": [OP, ...]}
+#        (the sub-operations are issued `gap` virtual seconds apart - far less than the 0.5 s data period -
+#         WITHOUT settling in between: status flaps faster than the data, a status right after `request`
+#         and before the first data message reaches the new aggregator, ...; only the state after the
+#         whole burst has settled is judged)
+#        drift: (N messages 50 virtual ms apart, the field moving from v0 to v0 * (1 + k * rel), k = 1..N, with
 #         nothing else happening in between: the streamed value must follow slow changes, too)
 # After every OP the scenario waits SETTLE virtual seconds (longer than the fetchers' 2 s data
 # timeout + the aggregator's 2 s start delay + the 0.5 s streaming period) and records the latest
@@ -526,10 +531,12 @@ def snapshots(case):
     last = {b: v for b, v in data.items() if v is not None}
     requested = set()
     out = []
-    for op in case["script"]:
+    st = {"working": working}
+
+    def apply(op):
         k = op["op"]
         if k == "status":
-            working = set(op["working"]) & set(case["pool"])
+            st["working"] = set(op["working"]) & set(case["pool"])
         elif k == "request":
             requested.add(op["what"])
         elif k == "data":
@@ -544,6 +551,13 @@ def snapshots(case):
             d = last.get(op["id"])
             if d is not None and op["id"] not in silent and fr(d[op["field"]]) is not None:
                 last[op["id"]] = {**d, op["field"]: enc(fr(d[op["field"]]) * (1 + op["steps"] * fr(op["rel"])))}
+        elif k == "burst":
+            for sub in op["ops"]:
+                apply(sub)
+
+    for op in case["script"]:
+        apply(op)
+        working = st["working"]
         bats = []
         for b in sorted(case["pool"]):
             d = last.get(b)
@@ -629,7 +643,7 @@ def run_pool(case):
 
         checkpoints = []
         try:
-            for op in case["script"]:
+            async def do(op):
                 k = op["op"]
                 if k == "status":
                     await status_tx.send(I.ComponentPoolStatus(working=set(op["working"]), uncertain=set()))
@@ -653,6 +667,13 @@ def run_pool(case):
                             cur[b] = {**d0, op["field"]: enc(v0 * (1 + step * rel))}
                             await send_now(b)
                             await aio.sleep(0.05)
+                elif k == "burst":
+                    for sub in op["ops"]:
+                        await do(sub)
+                        await aio.sleep(float(fr(op["gap"])))
+
+            for op in case["script"]:
+                await do(op)
                 await aio.sleep(SETTLE)
                 checkpoints.append({w: (["none-yet"] if not logs[w] else [logs[w][-1][1]]) for w in ("soc", "capacity")
                                     if any(t.get_name() == w for t in tasks)})
@@ -703,6 +724,33 @@ def gen_pool_case(rng):
             script.append({"op": "silence", "id": b})
         else:
             script.append({"op": "resume", "id": b})
+    if rng.random() < 0.35:
+        # status flapping faster than the data (0.5 s period), optionally right after a request / with a
+        # data change or a battery falling silent in the middle
+        gap = rng.choice([F(1, 100), F(1, 20), F(1, 10), F(3, 20)])
+        flap = rng.choice(pool)
+        subs = []
+        for j in range(rng.randint(2, 4)):
+            if rng.random() < 0.6:   # flap one battery: out, in, out, ...
+                base = set(subset()) | {flap}
+                w = sorted(base - {flap}) if j % 2 == 0 else sorted(base)
+            else:
+                w = subset()
+            subs.append({"op": "status", "working": w})
+        r = rng.random()
+        if r < 0.25:
+            subs.insert(rng.randrange(len(subs) + 1), {"op": "silence", "id": rng.choice(pool)})
+        elif r < 0.4:
+            subs.insert(rng.randrange(len(subs) + 1), {"op": "data", "id": rng.choice(pool), "d": gen_d()})
+        burst = {"op": "burst", "gap": enc(gap), "ops": subs}
+        r = rng.random()
+        if r < 0.35:
+            # put the first request of a stream INTO the burst: status changes hit a brand-new aggregator
+            i = next(k for k, o in enumerate(script) if o["op"] == "request")
+            burst["ops"].insert(0, script.pop(i))
+            script.insert(min(i, len(script)), burst)
+        else:
+            script.insert(rng.randint(0, len(script)), burst)
     if rng.random() < 0.09:
         # a metric drifting in many small steps with no other event in between; mostly short, a few long
         steps = rng.choice([20, 20, 20, 50, 50, 200, 200, 200, 1000, 1000, 1000, 4000])
@@ -733,6 +781,12 @@ def pool_boundary_cases():
         {"pool": [5, 8], "init": init, "script": [R("capacity"), R("soc"), S(5), S(5, 8), S(8)]},
         # no status at all: nothing is known to work
         {"pool": [5, 8], "init": init, "script": [R("soc"), R("capacity")]},
+        # battery 8 flaps (out, in, out) within 0.2 s while data arrives every 0.5 s; later statuses must still count
+        {"pool": [5, 8], "init": init, "script": [S(5, 8), R("soc"), R("capacity"),
+                                                 {"op": "burst", "gap": [1, 10], "ops": [S(5), S(5, 8), S(5)]}, S(5, 8), S(8)]},
+        # a battery reported not working right after the stream is created, before its first data message
+        {"pool": [5, 8], "init": init, "script": [S(5, 8), {"op": "burst", "gap": [1, 100], "ops": [R("capacity"), R("soc"), S(5)]},
+                                                 S(5, 8)]},
         # battery 5 charges 40 % -> 50 % in 4000 steps of 0.0025 %, nothing else happens meanwhile
         {"pool": [5, 8], "init": {"5": D(1000, 10, 90, 40), "8": D(3000, 10, 90, 90)},
          "script": [S(5), R("soc"), R("capacity"), {"op": "drift", "id": 5, "field": "soc", "rel": enc(F(1, 16000)), "steps": 4000}]},
@@ -827,8 +881,14 @@ class PoolIntegrationStream(Stream):
     def labels(self, case, obs):
         if "error" in obs:
             return ["impl_error"]
-        sc = case["script"]
-        out = [f"pool_size={len(case['pool'])}", f"steps={len(sc)}"]
+        flat = lambda ops: [x for o in ops for x in ([o] if o["op"] != "burst" else flat(o["ops"]))]
+        nb = [o for o in case["script"] if o["op"] == "burst"]
+        sc = flat(case["script"])
+        out = [f"pool_size={len(case['pool'])}", f"steps={len(case['script'])}"]
+        if nb:
+            out.append("status_burst")
+            if any(x["op"] == "request" for o in nb for x in o["ops"]):
+                out.append("burst_starts_with_request")
         first_status = next((i for i, o in enumerate(sc) if o["op"] == "status"), None)
         first_req = next((i for i, o in enumerate(sc) if o["op"] == "request"), None)
         if first_status is None:
@@ -858,6 +918,10 @@ class PoolIntegrationStream(Stream):
         for i, o in enumerate(sc):
             if o["op"] == "drift" and o["steps"] > 10:
                 yield {**case, "script": sc[:i] + [{**o, "steps": o["steps"] // 4}] + sc[i + 1:]}
+            if o["op"] == "burst":
+                for j in range(len(o["ops"])):
+                    if len(o["ops"]) > 1:
+                        yield {**case, "script": sc[:i] + [{**o, "ops": o["ops"][:j] + o["ops"][j + 1:]}] + sc[i + 1:]}
         for b in case["pool"]:
             if len(case["pool"]) > 1:
                 yield {"pool": [x for x in case["pool"] if x != b],
